@@ -149,8 +149,22 @@ LabOutDrop(v) ==
      bound_ms |-> 2500, expect |-> [ok |-> FALSE, notsupported |-> FALSE, hops |-> <<>>]]
 C08Lab == { LabHole(m, n) : m \in {"sack", "prefer_sack"}, n \in {1, 2} } \cup { LabOutDrop(v) : v \in {<<"udp", "">>, <<"icmp", "">>, <<"tcp", "syn">>} }
 
+\* C17 on the real kernel (every lab address is private: 10/8, fd00::/8): with skipping on every hop is redacted - over IPv4, over
+\* IPv6 (unique local addresses), through the library and through the command line, and whatever other flags accompany it
+\* (--ipv6 next to an IPv4 literal only steers name resolution)
+LabSkip6(proto, n, cli) ==
+    [Lab6(proto, n, {}, cli) EXCEPT !.id = "C17/lab/" \o proto \o "6/n" \o ToString(n) \o (IF cli THEN "/cli" ELSE ""),
+                                    !.label = proto \o "6/skip_private/unique_local" \o (IF cli THEN "/cli" ELSE ""),
+                                    !.skip = TRUE, !.req.skip_private = TRUE,
+                                    !.expect.hops = [k \in 1..(n + 1) |-> [ttl |-> k, addr |-> "", dest |-> FALSE]]]
+LabSkipFlag6(proto, n, cli) ==
+    [LabSkip(proto, n, cli) EXCEPT !.id = "C17/lab/" \o proto \o "/n" \o ToString(n) \o "/ipv6_flag" \o (IF cli THEN "/cli" ELSE ""),
+                                   !.label = proto \o "/skip_private/with_ipv6_flag" \o (IF cli THEN "/cli" ELSE ""), !.req.want_v6 = TRUE]
+C17Lab == { LabSkip6(p, 2, c) : p \in {"icmp", "udp"}, c \in BOOLEAN } \cup { LabSkipFlag6(p, 2, c) : p \in {"icmp", "udp"}, c \in BOOLEAN }
+          \cup { [LabSkip(p, 2, c) EXCEPT !.id = "C17/lab/" \o p \o "/n2" \o (IF c THEN "/cli" ELSE "")] : p \in {"icmp", "udp"}, c \in BOOLEAN }
+
 LabGen == IF "VT_GEN" \in DOMAIN IOEnv THEN IOEnv.VT_GEN ELSE "C13"
-LabCases == IF LabGen = "C08" THEN C08Lab ELSE All \cup Extra \cup CliAll \cup MoreC13
+LabCases == IF LabGen = "C08" THEN C08Lab ELSE IF LabGen = "C17" THEN C17Lab ELSE All \cup Extra \cup CliAll \cup MoreC13
 ASSUME ndJsonSerialize(IOEnv.VT_OUT, SetToSeq(LabCases)) /\ PrintT(<<"GEN", LabGen, Cardinality(LabCases), Cardinality(LabCases)>>)
 VARIABLE x
 Init == x = 0
